@@ -4,6 +4,8 @@
 -/
 import Proofs.C11_Lemmas
 import Proofs.C04_Chains
+import Proofs.C11_Xml
+import Proofs.C11_XmlNoField
 namespace Mammoth
 
 /-! ### reading the formatting of a run -/
@@ -282,5 +284,197 @@ example : leaves (collapse (stripEmpty c11_forest)) =
     [([], .text S!"a"), ([strongT], .text S!"b"), ([strongT, emT], .text S!"c"), ([], .text S!"d")] := by rfl
 example : collapse (stripEmpty c11_forest) =
     [.text S!"a", .elem strongT [.text S!"b", .elem emT [.text S!"c"]], .text S!"d"] := by rfl
+
+/-! ### END TO END: from the XML of a run to its HTML
+
+`c11x_rPr cs`: the children of the first `w:rPr` child of the run (nothing if there is none);
+`c11x_paths env cfg props = c11x_formatPaths cfg props ++ [c11x_stylePath env cfg props]`: the path list specified
+directly on the XML property list `props` (Proofs/C11_Xml.lean): `w:b` / `w:i` / `w:strike` / `w:caps` /
+`w:smallCaps` count iff the element is present and its `w:val` is neither `false` nor `0`; `w:u` iff present with a
+value other than `false`, `0`, `none`; `w:vertAlign` iff its value is `subscript` / `superscript`; `w:highlight` iff
+its value is non-empty, not `none`, and a highlight mapping matches it; the run style `w:rStyle` (named through the
+character styles of `env`) contributes the path of the first matching run mapping. -/
+
+/-- the specification looks at the XML the way the reader's helper functions do -/
+theorem C11_xml_spec_reads (env : REnv) (name : Str) (props : List XmlNode) :
+    readBoolElem name props = c11x_toggle name props ∧
+    readUnderline props = c11x_underline props ∧
+    readHighlight (childAttr S!"w:highlight" S!"w:val" props) = c11x_highlight props ∧
+    childAttr S!"w:vertAlign" S!"w:val" props = c11x_vertAlign props ∧
+    readStyle props S!"w:rStyle" S!"Run" env.styles.character =
+      ((c11x_styleId props, c11x_styleName env props), c11x_styleMsgs env props) :=
+  ⟨c11x_readBoolElem name props, c11x_readUnderline props, c11x_readHighlight props,
+   c11x_childAttr _ props, c11x_readStyle env props⟩
+
+/-- READER HALF: a `w:r` element (any attributes `as`, any children `cs`) whose children are read as `r`, ending in a
+    state `st1` with no open hyperlink field, is read as ONE run element with the run properties specified by
+    its `w:rPr`, containing the children's elements; its only own message is the undefined-style warning -/
+theorem C11_xml_read_run (env : REnv) (f : Nat) (st st1 : RState) (as : Attrs) (cs : List XmlNode)
+    (r : ReadResult)
+    (hcs : readAllWith (readElem env f) st cs = .ok (r, st1))
+    (hfld : currentHyperlink st1.stack = none) :
+    readElem env (f+1) st (.elem S!"w:r" as cs) =
+      .ok ({ elements := [.run (c11x_runProps env (c11x_rPr cs)) r.elements], extra := r.extra,
+             messages := c11x_styleMsgs env (c11x_rPr cs) ++ r.messages }, st1) :=
+  c11x_read_run env f st st1 as cs r hcs hfld
+
+/-- FROM THE XML TO THE WRAPPERS.  Hypotheses (all on the XML, the reader state and the style map):
+    `hcs` — the children `cs` of the `w:r` are read (by the same reader, fuel `f`) as `r`, ending in state `st1`;
+    `hfld` — no hyperlink complex field is open in `st1`;
+    `hno` — none of the paths specified by the run's `w:rPr` is `!`.
+    Then the element is read as one run, and converting THAT run yields the nodes of the children's elements
+    `r.elements` wrapped by `c11x_paths` — the paths specified directly on the `w:rPr` XML, innermost first, bold
+    outermost but for the run style.  The converter state passes through as for any run (`c03_warnState`: one
+    warning iff the run has a style id that no mapping matches). -/
+theorem C11_xml_run_wrappers (env : REnv) (cfg : Cfg) (hdr : Bool) (f : Nat) (st st1 : RState) (as : Attrs)
+    (cs : List XmlNode) (r : ReadResult) (cst : ConvState)
+    (hcs : readAllWith (readElem env f) st cs = .ok (r, st1))
+    (hfld : currentHyperlink st1.stack = none)
+    (hno : (c11x_paths env cfg (c11x_rPr cs)).any HtmlPath.isIgnore = false) :
+    readElem env (f+1) st (.elem S!"w:r" as cs) =
+      .ok ({ elements := [.run (c11x_runProps env (c11x_rPr cs)) r.elements], extra := r.extra,
+             messages := c11x_styleMsgs env (c11x_rPr cs) ++ r.messages }, st1) ∧
+    (visit cfg hdr (.run (c11x_runProps env (c11x_rPr cs)) r.elements)).run cst =
+      match (visitAll cfg hdr r.elements).run
+              (c03_warnState cfg (.run (c11x_styleId (c11x_rPr cs)) (c11x_styleName env (c11x_rPr cs))) S!"run"
+                (c11x_styleId (c11x_rPr cs)) (c11x_styleName env (c11x_rPr cs)) cst) with
+      | .ok (ns, cst') => .ok (wrapAll (c11x_paths env cfg (c11x_rPr cs)) ns, cst')
+      | .error e => .error e := by
+  refine ⟨c11x_read_run env f st st1 as cs r hcs hfld, ?_⟩
+  have hno' : (runPropPaths cfg (c11x_runProps env (c11x_rPr cs)) ++
+      [(findPath cfg (.run (c11x_runProps env (c11x_rPr cs)).styleId
+          (c11x_runProps env (c11x_rPr cs)).styleName)).getD (.elements [])]).any HtmlPath.isIgnore = false := by
+    rw [c11x_runPropPaths, c11x_stylePath_eq]; exact hno
+  rw [C11_visit_run cfg hdr _ _ cst hno', c11x_runPropPaths, c11x_stylePath_eq]
+  rfl
+
+/-- …and if one of the specified paths IS `!`, the children are not converted at all: the nodes are the specified
+    paths around nothing (the paths outside the `!` still wrap the empty content) -/
+theorem C11_xml_run_ignored (env : REnv) (cfg : Cfg) (hdr : Bool) (f : Nat) (st st1 : RState) (as : Attrs)
+    (cs : List XmlNode) (r : ReadResult) (cst : ConvState)
+    (hcs : readAllWith (readElem env f) st cs = .ok (r, st1))
+    (hfld : currentHyperlink st1.stack = none)
+    (hig : (c11x_paths env cfg (c11x_rPr cs)).any HtmlPath.isIgnore = true) :
+    readElem env (f+1) st (.elem S!"w:r" as cs) =
+      .ok ({ elements := [.run (c11x_runProps env (c11x_rPr cs)) r.elements], extra := r.extra,
+             messages := c11x_styleMsgs env (c11x_rPr cs) ++ r.messages }, st1) ∧
+    (visit cfg hdr (.run (c11x_runProps env (c11x_rPr cs)) r.elements)).run cst =
+      .ok (wrapAll (c11x_paths env cfg (c11x_rPr cs)) [],
+           c03_warnState cfg (.run (c11x_styleId (c11x_rPr cs)) (c11x_styleName env (c11x_rPr cs))) S!"run"
+             (c11x_styleId (c11x_rPr cs)) (c11x_styleName env (c11x_rPr cs)) cst) := by
+  refine ⟨c11x_read_run env f st st1 as cs r hcs hfld, ?_⟩
+  rw [visit, c03_bind_run, c03_findPathWarn_run]
+  simp only [c11x_runPropPaths, c11x_stylePath_eq]
+  have hig' : (c11x_formatPaths cfg (c11x_rPr cs) ++ [c11x_stylePath env cfg (c11x_rPr cs)]).any
+      HtmlPath.isIgnore = true := hig
+  simp only [hig', if_true]
+  rfl
+
+/-- A RUN WITHOUT FORMATTING, FROM THE XML: if in the run's `w:rPr` (possibly absent) every on/off property and
+    underline is absent or switched off (`w:val` `false` / `0`; `w:u` also without a value or `none`), there is no
+    sub/superscript, the highlight is absent, empty, `none` or unmapped and no run-style mapping applies
+    (`c11x_plain`), then converting the run that is read yields exactly the nodes of its children's elements -/
+theorem C11_xml_plain_run (env : REnv) (cfg : Cfg) (hdr : Bool) (f : Nat) (st st1 : RState) (as : Attrs)
+    (cs : List XmlNode) (r : ReadResult) (cst : ConvState)
+    (hcs : readAllWith (readElem env f) st cs = .ok (r, st1))
+    (hfld : currentHyperlink st1.stack = none)
+    (hplain : c11x_plain env cfg (c11x_rPr cs) = true) :
+    readElem env (f+1) st (.elem S!"w:r" as cs) =
+      .ok ({ elements := [.run (c11x_runProps env (c11x_rPr cs)) r.elements], extra := r.extra,
+             messages := c11x_styleMsgs env (c11x_rPr cs) ++ r.messages }, st1) ∧
+    (visit cfg hdr (.run (c11x_runProps env (c11x_rPr cs)) r.elements)).run cst =
+      (visitAll cfg hdr r.elements).run
+        (c03_warnState cfg (.run (c11x_styleId (c11x_rPr cs)) (c11x_styleName env (c11x_rPr cs))) S!"run"
+          (c11x_styleId (c11x_rPr cs)) (c11x_styleName env (c11x_rPr cs)) cst) := by
+  have hp := c11x_plain_paths env cfg _ hplain
+  obtain ⟨h1, h2⟩ := C11_xml_run_wrappers env cfg hdr f st st1 as cs r cst hcs hfld (by rw [hp]; rfl)
+  refine ⟨h1, ?_⟩
+  rw [h2, hp]
+  cases (visitAll cfg hdr r.elements).run _ with
+  | error e => rfl
+  | ok p => rfl
+
+/-- THE SAME WITH EVERY HYPOTHESIS ON THE XML AND ON THE STATE BEFORE THE RUN: the run is outside every hyperlink
+    complex field (`currentHyperlink st.stack = none`), and neither its children nor the nodes deferred from
+    deleted paragraphs contain a `w:fldChar` (`c11x_noFldL`) — then no hyperlink field is open after the children
+    either, and `C11_xml_run_wrappers` applies -/
+theorem C11_xml_run_wrappers_nofield (env : REnv) (cfg : Cfg) (hdr : Bool) (f : Nat) (st st1 : RState) (as : Attrs)
+    (cs : List XmlNode) (r : ReadResult) (cst : ConvState)
+    (hcs : readAllWith (readElem env f) st cs = .ok (r, st1))
+    (hfld : currentHyperlink st.stack = none)
+    (hnf : c11x_noFldL cs = true) (hdel : c11x_noFldL st.deleted = true)
+    (hno : (c11x_paths env cfg (c11x_rPr cs)).any HtmlPath.isIgnore = false) :
+    readElem env (f+1) st (.elem S!"w:r" as cs) =
+      .ok ({ elements := [.run (c11x_runProps env (c11x_rPr cs)) r.elements], extra := r.extra,
+             messages := c11x_styleMsgs env (c11x_rPr cs) ++ r.messages }, st1) ∧
+    (visit cfg hdr (.run (c11x_runProps env (c11x_rPr cs)) r.elements)).run cst =
+      match (visitAll cfg hdr r.elements).run
+              (c03_warnState cfg (.run (c11x_styleId (c11x_rPr cs)) (c11x_styleName env (c11x_rPr cs))) S!"run"
+                (c11x_styleId (c11x_rPr cs)) (c11x_styleName env (c11x_rPr cs)) cst) with
+      | .ok (ns, cst') => .ok (wrapAll (c11x_paths env cfg (c11x_rPr cs)) ns, cst')
+      | .error e => .error e :=
+  C11_xml_run_wrappers env cfg hdr f st st1 as cs r cst hcs
+    (by rw [c11x_readAll_stack env f st st1 cs r hnf hdel hcs]; exact hfld) hno
+
+/-- a run without `w:rPr`, or with an empty one, is plain under every style map without a catch-all run mapping -/
+theorem C11_xml_no_rPr_plain (env : REnv) (cfg : Cfg)
+    (hst : findStyle cfg.upper cfg.styleMap (.run none none) = none) :
+    c11x_plain env cfg [] = true := by
+  simp [c11x_plain, c11x_toggle, c11x_underline, c11x_vertAlign, c11x_highlight, c11x_propVal, c11x_named,
+    c11x_styleId, c11x_styleName, hst]
+
+/-! examples: `<w:r><w:rPr><w:b/><w:i w:val="0"/><w:u w:val="single"/><w:strike w:val="true"/>
+    <w:vertAlign w:val="superscript"/><w:highlight w:val="yellow"/></w:rPr><w:t>x</w:t><w:tab/></w:r>`
+    under the style map `u => em`, `highlight[color='yellow'] => mark` -/
+private def c11x_exProps : List XmlNode :=
+  [.elem S!"w:b" [] [], .elem S!"w:i" [(S!"w:val", S!"0")] [], .elem S!"w:u" [(S!"w:val", S!"single")] [],
+   .elem S!"w:strike" [(S!"w:val", S!"true")] [], .elem S!"w:vertAlign" [(S!"w:val", S!"superscript")] [],
+   .elem S!"w:highlight" [(S!"w:val", S!"yellow")] [], .elem S!"w:b" [(S!"w:val", S!"false")] []]
+private def c11x_exContent : List XmlNode :=
+  [.elem S!"w:rPr" [] c11x_exProps, .elem S!"w:t" [] [.text S!"x"], .elem S!"w:tab" [] []]
+private def c11x_exCfg : Cfg :=
+  { styleMap := [⟨.underline, .elements [c11_tag S!"em"]⟩, ⟨.highlight (some S!"yellow"), .elements [c11_tag S!"mark"]⟩] }
+
+/-- the hypotheses of `C11_xml_run_wrappers` hold for it -/
+example : ∃ r st1, readAllWith (readElem {} 2) {} c11x_exContent = .ok (r, st1) ∧
+    currentHyperlink st1.stack = none ∧
+    (c11x_paths {} c11x_exCfg (c11x_rPr c11x_exContent)).any HtmlPath.isIgnore = false ∧
+    r.elements = [.text S!"x", .tab] :=
+  ⟨_, _, rfl, rfl, by decide +kernel, rfl⟩
+/-- its specified paths, innermost first: mark, s, em (underline, mapped), sup, strong — italic is switched off,
+    the second `w:b` does not count -/
+example : c11x_paths {} c11x_exCfg (c11x_rPr c11x_exContent) =
+    [.elements [c11_tag S!"mark"], .elements [c11_tag S!"s"], .elements [c11_tag S!"em"],
+     .elements [c11_tag S!"sup"], .elements [c11_tag S!"strong"], .elements []] := by decide +kernel
+/-- read and converted: `<strong><sup><em><s><mark>x TAB</mark></s></em></sup></strong>` -/
+example :
+    (match readElem {} 3 {} (.elem S!"w:r" [] c11x_exContent) with
+      | .ok (rr, _) => ((visitAll c11x_exCfg false rr.elements).run {}).toOption.map (·.1)
+      | .error _ => none) =
+    some [.elem (c11_tag S!"strong") [.elem (c11_tag S!"sup") [.elem (c11_tag S!"em") [.elem (c11_tag S!"s")
+            [.elem (c11_tag S!"mark") [.text S!"x", .text ['\t']]]]]]] := by rfl
+
+/-- everything switched off: `<w:rPr><w:b w:val="false"/><w:i w:val="0"/><w:u/><w:u w:val="single"/>
+    <w:strike w:val="0"/><w:highlight w:val="none"/><w:vertAlign w:val="baseline"/></w:rPr>` is plain -/
+private def c11x_exOff : List XmlNode :=
+  [.elem S!"w:rPr" []
+    [.elem S!"w:b" [(S!"w:val", S!"false")] [], .elem S!"w:i" [(S!"w:val", S!"0")] [], .elem S!"w:u" [] [],
+     .elem S!"w:u" [(S!"w:val", S!"single")] [], .elem S!"w:strike" [(S!"w:val", S!"0")] [],
+     .elem S!"w:highlight" [(S!"w:val", S!"none")] [], .elem S!"w:vertAlign" [(S!"w:val", S!"baseline")] []],
+   .elem S!"w:t" [] [.text S!"plain"]]
+example : c11x_plain {} c11x_exCfg (c11x_rPr c11x_exOff) = true := by decide +kernel
+example : c11x_noFldL c11x_exContent = true ∧ c11x_noFldL c11x_exOff = true := by decide
+example : ∃ r st1, readAllWith (readElem {} 2) {} c11x_exOff = .ok (r, st1) ∧
+    currentHyperlink st1.stack = none ∧ r.elements = [.text S!"plain"] := ⟨_, _, rfl, rfl, rfl⟩
+example :
+    (match readElem {} 3 {} (.elem S!"w:r" [] c11x_exOff) with
+      | .ok (rr, _) => ((visitAll c11x_exCfg false rr.elements).run {}).toOption.map (·.1)
+      | .error _ => none) = some [.text S!"plain"] := by rfl
+/-- a `!` mapping for bold: nothing of the run is written -/
+example :
+    (match readElem {} 3 {} (.elem S!"w:r" [] c11x_exContent) with
+      | .ok (rr, _) => ((visitAll { styleMap := [⟨.bold, .ignore⟩] } false rr.elements).run {}).toOption.map (·.1)
+      | .error _ => none) = some [] := by rfl
+
 
 end Mammoth
